@@ -339,3 +339,157 @@ Proof.
   d_cons fs z. d_int z v. d_nil fs.
   destruct Ha as (Hr & _). apply vector_push_good; assumption.
 Qed.
+
+(* ---------------------------------------------------------------- take *)
+Lemma concat_map_length_le {A} (g : A -> list Z) (l : list A) (k : nat) :
+  (forall x, In x l -> (length (g x) <= k)%nat) ->
+  (length (concat (map g l)) <= length l * k)%nat.
+Proof.
+  induction l as [|x t IH]; intros H; cbn [map concat length]; [lia|].
+  rewrite app_length.
+  pose proof (H x (or_introl eq_refl)).
+  specialize (IH (fun y Hy => H y (or_intror Hy))). lia.
+Qed.
+
+Lemma concat_map_ok {A} (g : A -> list Z) (l : list A) :
+  (forall x, In x l -> bytes_ok (g x)) -> bytes_ok (concat (map g l)).
+Proof.
+  unfold bytes_ok. induction l as [|x t IH]; intros H; cbn [map concat]; [constructor|].
+  apply Forall_app. split; [apply H; left; reflexivity|].
+  apply IH. intros y Hy. apply H. right. exact Hy.
+Qed.
+
+Definition take_chunk (w : Z) (d : list Z) (p : Z * Z) : list Z :=
+  if snd p =? 0 then [] else firstn (Z.to_nat w) (skipn (Z.to_nat (fst p * w)) d).
+
+Lemma vector_take_good rd w rm : wf rd -> wf rm ->
+  flatten_out (impl_vector_take (BTup [BBin rd; BInt w; BBin rm]))
+  = spec_vector_take (FTup [FBin (bytes_of rd); FInt w; FBin (bytes_of rm)])
+  /\ wf_out (impl_vector_take (BTup [BBin rd; BInt w; BBin rm])).
+Proof.
+  intros Hd Hm'. unfold impl_vector_take, spec_vector_take.
+  rewrite checked_width_spec.
+  destruct (width_ok w) eqn:Hw; cbn [negb obind]; [|split; [reflexivity|exact I]].
+  apply width_ok_cases, width_pos in Hw.
+  fold (blen (bytes_of rd)). fold (blen (bytes_of rm)).
+  destruct (Z.eqb_spec (blen (bytes_of rd) mod w) 0) as [Hm|Hm]; cbn [negb orb];
+    [|split; [reflexivity|exact I]].
+  destruct (Z.eqb_spec (blen (bytes_of rm)) (blen (bytes_of rd) / w)) as [He|He]; cbn [negb];
+    [|split; [reflexivity|exact I]].
+  fold (take_chunk w (bytes_of rd)).
+  rewrite (omap_val _ (take_chunk w (bytes_of rd))).
+  2:{ intros [i s] Hp. apply in_combine_l in Hp. apply zrange_In in Hp.
+      unfold take_chunk. cbn [fst snd]. destruct (s =? 0); [reflexivity|].
+      rewrite chunk_length; [| exact Hw | lia | apply lane_bound; [exact Hw|exact Hm|lia]].
+      rewrite Z2Nat.id by lia. rewrite Z.eqb_refl. reflexivity. }
+  cbn [obind].
+  pose proof (wf_blen rd Hd) as HLd.
+  assert (Hlen : Z.of_nat (length (concat (map (take_chunk w (bytes_of rd))
+                    (combine (zrange (blen (bytes_of rm))) (bytes_of rm))))) <= MAX_BINARY_SIZE).
+  { pose proof (concat_map_length_le (take_chunk w (bytes_of rd))
+                  (combine (zrange (blen (bytes_of rm))) (bytes_of rm)) (Z.to_nat w)) as Hc.
+    assert (Hk : forall x, In x (combine (zrange (blen (bytes_of rm))) (bytes_of rm)) ->
+                 (length (take_chunk w (bytes_of rd) x) <= Z.to_nat w)%nat).
+    { intros x _. unfold take_chunk. destruct (snd x =? 0); cbn [length]; [lia|].
+      rewrite firstn_length. lia. }
+    specialize (Hc Hk).
+    rewrite combine_length, zrange_length in Hc.
+    pose proof (Z.mul_div_le (blen (bytes_of rd)) w Hw) as Hdm.
+    assert (Hq : 0 <= blen (bytes_of rd) / w) by (apply Z.div_pos; lia).
+    assert (Hn : (Nat.min (Z.to_nat (blen (bytes_of rm))) (length (bytes_of rm)) * Z.to_nat w
+                  <= Z.to_nat (blen (bytes_of rd) / w) * Z.to_nat w)%nat).
+    { apply Nat.mul_le_mono_r. rewrite He. lia. }
+    assert (Hz : Z.of_nat (Z.to_nat (blen (bytes_of rd) / w) * Z.to_nat w)
+                 = w * (blen (bytes_of rd) / w)).
+    { rewrite Nat2Z.inj_mul, !Z2Nat.id by lia. ring. }
+    lia. }
+  rewrite alloc_bytes_ok by exact Hlen.
+  cbn [flatten_out flatten bytes_of wf_out wf_bval wf]. split; [reflexivity|].
+  split; [|exact Hlen].
+  apply concat_map_ok. intros x _. unfold take_chunk. destruct (snd x =? 0); [constructor|].
+  apply Forall_firstn_keep, Forall_skipn_keep. apply bytes_of_ok. exact Hd.
+Qed.
+
+Theorem vector_take_correct : agrees impl_vector_take spec_vector_take.
+Proof.
+  intros a Ha. d_tup a fs. d_cons fs x. d_bin x rd. d_cons fs y. d_int y w.
+  d_cons fs z. d_bin z rm. d_nil fs.
+  destruct Ha as (Hd & _ & Hm & _). apply vector_take_good; assumption.
+Qed.
+
+(* ---------------------------------------------------------------- elementwise *)
+Lemma elementwise_loop_spec opZ a b w idxs out : w = 4 \/ w = 8 ->
+  (forall i, In i idxs -> lane a w i = Val (spec_lane w a i) /\ lane b w i = Val (spec_lane w b i)) ->
+  elementwise_loop (checked_i64 opZ) a b w idxs out
+  = Val (if forallb (lane_ok w) (map (fun i => opZ (spec_lane w a i) (spec_lane w b i)) idxs)
+         then Some (out ++ encode_lanes w (map (fun i => opZ (spec_lane w a i) (spec_lane w b i)) idxs))
+         else None).
+Proof.
+  intros Hw. revert out. induction idxs as [|i rest IH]; intros out H.
+  - cbn [elementwise_loop map forallb encode_lanes flat_map]. rewrite app_nil_r. reflexivity.
+  - cbn [elementwise_loop map forallb].
+    destruct (H i (or_introl eq_refl)) as [Ea Eb]. rewrite Ea, Eb. cbn [obind].
+    unfold checked_i64. rewrite <- (lane_ok_fits w _ Hw).
+    destruct (in_i64 (opZ (spec_lane w a i) (spec_lane w b i))); cbn [andb]; [|reflexivity].
+    destruct (fits (opZ (spec_lane w a i) (spec_lane w b i)) w); cbn [andb]; [|reflexivity].
+    rewrite IH by (intros j Hj; apply H; right; exact Hj).
+    rewrite encode_lanes_cons, app_assoc. reflexivity.
+Qed.
+
+Lemma elementwise_good opZ ra rb w : wf ra -> wf rb ->
+  flatten_out (elementwise (checked_i64 opZ) (BTup [BBin ra; BBin rb; BInt w]))
+  = spec_elementwise opZ (FTup [FBin (bytes_of ra); FBin (bytes_of rb); FInt w])
+  /\ wf_out (elementwise (checked_i64 opZ) (BTup [BBin ra; BBin rb; BInt w])).
+Proof.
+  intros Ha Hb. unfold elementwise, spec_elementwise.
+  rewrite checked_width_spec.
+  destruct (width_ok w) eqn:Hw; cbn [negb obind]; [|split; [reflexivity|exact I]].
+  apply width_ok_cases in Hw. pose proof (width_pos w Hw) as Hwp.
+  fold (blen (bytes_of ra)). fold (blen (bytes_of rb)).
+  destruct (Z.eqb_spec (blen (bytes_of ra)) (blen (bytes_of rb))) as [He|He]; cbn [negb orb];
+    [|split; [reflexivity|exact I]].
+  destruct (Z.eqb_spec (blen (bytes_of ra) mod w) 0) as [Hm|Hm]; cbn [negb];
+    [|split; [reflexivity|exact I]].
+  rewrite (elementwise_loop_spec opZ _ _ w _ _ Hw).
+  2:{ intros i Hi. apply zrange_In in Hi. split.
+      - apply lane_val_idx; assumption.
+      - apply lane_val_idx; try rewrite <- He; assumption. }
+  cbn [obind app].
+  unfold spec_lanes. rewrite <- He, map2_map.
+  set (rs := map (fun i => opZ (spec_lane w (bytes_of ra) i) (spec_lane w (bytes_of rb) i))
+                 (zrange (blen (bytes_of ra) / w))).
+  destruct (forallb (lane_ok w) rs); [|split; [reflexivity|exact I]].
+  pose proof (wf_blen ra Ha) as HLa.
+  assert (Hlen : Z.of_nat (length (encode_lanes w rs)) <= MAX_BINARY_SIZE).
+  { fold (blen (encode_lanes w rs)). rewrite encode_lanes_length by lia.
+    unfold rs. rewrite map_length, zrange_length.
+    assert (Hq : 0 <= blen (bytes_of ra) / w) by (apply Z.div_pos; lia).
+    rewrite Z2Nat.id by exact Hq.
+    pose proof (Z.mul_div_le (blen (bytes_of ra)) w Hwp). lia. }
+  rewrite alloc_bytes_ok by exact Hlen.
+  cbn [flatten_out flatten bytes_of wf_out wf_bval wf]. split; [reflexivity|].
+  split; [apply encode_lanes_ok | exact Hlen].
+Qed.
+
+Lemma elementwise_correct opZ : agrees (elementwise (checked_i64 opZ)) (spec_elementwise opZ).
+Proof.
+  intros a Ha. d_tup a fs. d_cons fs x. d_bin x ra. d_cons fs y. d_bin y rb.
+  d_cons fs z. d_int z w. d_nil fs.
+  destruct Ha as (Ha & Hb & _). apply elementwise_good; assumption.
+Qed.
+
+Theorem vector_add_correct : agrees impl_vector_add spec_vector_add.
+Proof. exact (elementwise_correct Z.add). Qed.
+Theorem vector_subtract_correct : agrees impl_vector_subtract spec_vector_subtract.
+Proof. exact (elementwise_correct Z.sub). Qed.
+Theorem vector_multiply_correct : agrees impl_vector_multiply spec_vector_multiply.
+Proof. exact (elementwise_correct Z.mul). Qed.
+
+(* non-vacuity: concrete evaluations *)
+Example vector_add_example :
+  flatten_out (impl_vector_add (BTup [BBin (Owned [1;0;0;0; 255;255;255;127]); BBin (Concat (Owned [2;0;0;0]) (Zeroed 4) 8); BInt 4]))
+  = Val (FBin [3;0;0;0; 255;255;255;127]).
+Proof. vm_compute; reflexivity. Qed.
+Example vector_add_overflow_example :
+  impl_vector_add (BTup [BBin (Owned [255;255;255;127]); BBin (Owned [1;0;0;0]); BInt 4]) = Val bnil.
+Proof. vm_compute; reflexivity. Qed.
